@@ -1,5 +1,6 @@
 """C17 — operand reflection agrees with the parser and the grammar."""
 import json
+import re
 import random
 import checklib as C
 import instgen
@@ -109,7 +110,44 @@ def run(ctx):
             if o.kind == "w" and rnd.random() < 0.5:
                 reqs.append(f"idmut {inst.text()} {k} {rnd.randrange(1, 1 << 32)}")
 
+    # conversions: `From<T> for Operand` and the `unwrap_*` accessors themselves are executed on one payload of every variant,
+    # and every accessor on an operand of every other variant (must panic) resp. its own (must return the payload)
+    base = [r.split(" ")[1] for r in reqs if r.startswith("reflect ")]
+    one_per_variant = {}
+    for tok in base:
+        one_per_variant.setdefault(int(tok.split(":")[0]), tok)
+    nconv = 0
+    for tok in base[:: (7 if ctx.tier == "quick" else 1)] + list(one_per_variant.values()):
+        reqs.append("conv " + tok); nconv += 1
+    unw = T["operand_reflect"]["unwrap"]
+    own = {vix[v]: j for j, (_, _, v) in enumerate(unw)}
+    for vi, tok in one_per_variant.items():
+        for j in range(len(unw)):
+            if ctx.tier != "quick" or j == own.get(vi) or (j + vi) % 5 == 0:
+                reqs.append(f"unwrapx {tok} {j}"); nconv += 1
+    for fn, _, v in unw:
+        snake = re.sub(r"(?<=[a-z0-9])([A-Z])|(?<=[A-Z])([A-Z])(?=[a-z])", lambda m: "_" + (m.group(1) or m.group(2)), v).lower()
+        ctx.oblige(f"accessor name: {fn} is the accessor of Operand::{v}", fn.replace("_", "") == ("unwrap_" + snake).replace("_", ""))
+
     def oracle(req, resp):
+        if req.startswith("unwrapx "):
+            _, tok, j = req.split(" ")
+            mine = own.get(int(tok.split(":")[0])) == int(j)
+            if mine:
+                return None if resp == "ok " + tok else f"accessor of the operand's own variant answered {resp[:80]}"
+            return None if resp.startswith("panic") else f"accessor of another variant answered {resp[:80]} instead of panicking"
+        if req.startswith("conv "):
+            tok = req.split(" ")[1]
+            if resp.startswith("panic"):
+                return "panicked: " + resp[6:80]
+            parts = resp.split(" ")
+            if len(parts) != 3 or parts[0] != "ok":
+                return "malformed answer " + resp[:80]
+            if parts[2] != tok:
+                return f"extracting the payload of {tok} gives {parts[2]}"
+            if parts[1] != "-" and parts[1].split(":", 1)[1] != tok.split(":", 1)[1]:
+                return f"converting the payload of {tok} into an operand gives {parts[1]}"
+            return None
         if resp.startswith("panic"):
             return "panicked: " + resp[6:80]
         if req.startswith("idmut "):
@@ -141,6 +179,7 @@ def run(ctx):
     impl, model = C.differential(ctx, reqs, "reflect", oracle=oracle, shrink=False)
     ctx.coverage["reflect_probes"] = sum(1 for r in reqs if r.startswith("reflect"))
     ctx.coverage["idmut_probes"] = sum(1 for r in reqs if r.startswith("idmut"))
+    ctx.coverage["conversion_probes"] = nconv
     for a in impl:
         if a != "ok add:- caps:- exts:- id:-":
             ctx.distinct.add(a)
